@@ -248,6 +248,15 @@ def run(ctx):
     if xerr:
         r["ok"] = False
         r["failures"].append("fact extraction from packfile.rs/packer.rs failed: " + xerr)
+    # hard pins: the functions the model states statement by statement must be what they were
+    pin_fail = (meta or {}).get("pin_failures", [])
+    for pf in pin_fail:
+        r["ok"] = False
+        r["failures"].append("source no longer has the modelled shape: " + pf)
+    cov["pinned_functions"] = len((meta or {}).get("pin_hashes", {}))
+    cov["pin_failures"] = pin_fail
+    writer_broken = xerr is not None and "file-writer" in xerr or (meta is not None and meta.get("WRITER_INDEXES_AFTER_WRITE") is False) \
+        or any("packer::process" in pf for pf in pin_fail)
     cov["trusted_base"] += ["props/C08/extract.py (constants and HeaderEntry layout from packfile.rs into Extracted.v)",
                             "harness SliceBackend (read_partial returns an error outside the file, like the local backend)"]
     ctx.assumptions += [
@@ -255,7 +264,8 @@ def run(ctx):
         "ReadBackend::read_partial returns exactly the requested range or an error",
         "checked u32 arithmetic = build with overflow checks (the harness and `cargo test` profile); a release build wraps instead of panicking",
         "ids are 32 bytes; IndexBlob.uncompressed_length is NonZeroU32 (never Some 0)",
-        "SHA-256 naming of packs and the writer thread (Actor) are observed end to end, not modelled",
+        "the writer thread (Actor) is modelled as a FIFO with at most one failing upload; SHA-256 naming is observed end to end",
+        "the packer's age limit (MAX_AGE = 5 min) is an oracle of the model and is not reached by any check run",
         "delete-marks (packs_to_delete) and pack times are not recoverable from packs and are outside rebuild_index_equals_index",
         "written_repo_index_rebuildable assumes that the hash (SHA-256) does not collide on the written pack files",
         "the repacker theorems hold for every order of the blob list; sort_unstable and the parallel iteration over chunks are exercised by the correspondence only"]
@@ -293,6 +303,19 @@ def run(ctx):
             if a[0].partition(" | ")[0] != b[0].partition(" d=")[0]:
                 ctx.violation("replayed case still disagrees", w, no_input=True)
             return vlib.finish_broken_obligations(ctx)
+        if w.get("mode") == "failupload" and "case" in w:
+            a = run_lines(impl, [w["case"]], "failupload")
+            print("replay failupload %s: %s" % (w["case"], a[0]))
+            if "phantom=0" not in a[0]:
+                ctx.violation("a persisted index file lists a pack that was never stored (upload of pack k rejected)", {"mode": "failupload", "case": w["case"], "impl": a[0]})
+            return vlib.finish_broken_obligations(ctx)
+        if w.get("mode") == "packauto" and "case" in w:
+            v2, m2 = [], []
+            run_extremes(ctx, impl, model, lambda k, n=1: None, v2, m2, set(), [], only=[w["case"]])
+            for what, mode, case, got in v2[:5]: ctx.violation(what, {"mode": mode, "case": case, "impl": got[:3000]})
+            if m2 and not v2: ctx.violation("replayed packauto case: model and implementation disagree", {"case": w["case"]}, no_input=True)
+            print("replay packauto: %d oracle violations, %d mismatches" % (len(v2), len(m2)))
+            return vlib.finish_broken_obligations(ctx)
         if "mode" in w and "case" in w and w["mode"] in ("codec", "frombin", "packer", "coalloc"):
             a = run_lines(impl, [w["case"]], w["mode"])
             b = run_lines(model, [w["case"]], w["mode"]) if model else ["-"]
@@ -300,6 +323,22 @@ def run(ctx):
             if a[0] != b[0].split(" | spec=")[0]:
                 ctx.violation("replayed case still disagrees", w, no_input=True)
             return vlib.finish_broken_obligations(ctx)
+
+    # ---- (x) extreme points of the parameter space first (also the first stop of the search when an obligation is broken)
+    ex = run_extremes(ctx, impl, model, bump, viol, mism, nontriv, samples) if model else {}
+    nev += ex.get("evaluations", 0)
+
+    # ---- (w) directed search, only when the upload-before-registration obligation is broken
+    if writer_broken:
+        nchunks = 50000
+        lines = ["%d %d" % (k, nchunks) for k in range(1, 7)]
+        a = run_lines(impl, lines, "failupload", timeout=1500)
+        nev += len(lines)
+        for l, x in zip(lines, a):
+            bump("failupload_" + ("phantom" if "phantom=0" not in x else "clean"))
+            if "phantom=" in x and "phantom=0" not in x:
+                viol.append(("a persisted index file lists a pack that was never stored (upload of pack k rejected during a backup of %d tiny blobs)" % nchunks, "failupload", l, x))
+        cov["failupload_search"] = dict(zip(lines, a))
 
     # ---- (a) codec
     cases = []
@@ -441,6 +480,7 @@ def run(ctx):
                 "model_impl_mismatches": len(mism), "oracle_violations": len(viol)})
     cov.update({k: v for k, v in e2e.items() if k != "evaluations"})
     cov.update({k: v for k, v in rp.items() if k != "evaluations"})
+    cov.update({k: v for k, v in ex.items() if k != "evaluations"})
     for what, mode, case, got in viol[:40]:
         ctx.violation(what, {"mode": mode, "case": case if len(case) < 20000 else case[:20000] + "...", "impl": got[:4000],
                              "how_to_replay": "echo '<case>' | <harness>/c08 - <mode>   (formats: harness/src/bin/c08.rs)"},
@@ -450,6 +490,71 @@ def run(ctx):
         ctx.violation("correspondence broken: extracted model disagrees with the implementation in mode %s (%d cases) although every oracle holds" % (m0[0], len(mism)),
                       {"mode": m0[0], "case": m0[1][:20000], "impl": m0[2][:3000], "model": m0[3][:3000]}, no_input=True)
     vlib.finish_broken_obligations(ctx)
+
+
+def extreme_cases(T, max_count):
+    """(name, case line) — tpe pack_size nspec { count idbase datalen ulen }"""
+    big = 4000000000
+    c = [("count_limit_compressed_1B", "1 %d 1 %d 1000 1 7" % (big, max_count + 1)),
+         ("count_limit_uncompressed_2B", "0 %d 1 %d 5 2 -1" % (big, max_count)),
+         ("size_limit", "1 1000 2 7 100 300 -1 3 100 1 9"),
+         ("empty_flush", "1 %d 0" % big),
+         ("only_duplicates", "0 %d 3 1 77 5 -1 1 77 5 -1 1 77 9 3" % big),
+         ("zero_length_blobs", "1 %d 2 3 50 0 -1 3 60 0 4" % big),
+         ("size_limit_one", "0 1 1 4 900 1 -1"),
+         ("single_huge_blob", "1 50 1 1 9 %d -1" % (3000000 if T else 300000))]
+    if T:
+        c += [("count_limit_minus_one_compressed", "1 %d 1 %d 2000 1 3" % (big, max_count - 1)),
+              ("two_full_packs_mixed_entries", "1 %d 2 %d 10 1 -1 %d 50000 2 12" % (big, max_count, max_count + 3)),
+              ("size_limit_boundary", "0 300 3 1 1 299 -1 1 2 1 -1 1 3 300 5")]
+    return c
+
+
+def run_extremes(ctx, impl, model, bump, viol, mism, nontriv, samples, only=None):
+    T = ctx.thorough()
+    mc = 10000
+    try:
+        import importlib.util
+        sp = importlib.util.spec_from_file_location("c08x", os.path.join(ctx.pdir, "extract.py")); ex = importlib.util.module_from_spec(sp); sp.loader.exec_module(ex)
+        mc = ex.gen(REPO)[1].get("MAX_COUNT", 10000)
+    except Exception:
+        pass
+    cases = extreme_cases(T, mc) if only is None else [("replay", c) for c in only]
+    lines = [c for _, c in cases]
+    a = run_lines(impl, lines, "packauto", tag="ex")
+    b = run_lines(model, lines, "packauto", tag="ex")
+    dl, di = [], []
+    summary = {}
+    for (name, l), x, y in zip(cases, a, b):
+        if x != y: mism.append(("packauto", l, x[:3000], y[:3000]))
+        packs = [] if x in ("none", "err", "panic") else x.split(" ; ")
+        summary[name] = []
+        if x in ("err", "panic"):
+            viol.append(("the packer fails on an admissible extreme input (%s): %s" % (name, x), "packauto", l, x))
+        for part in packs:
+            head, _, ff = part.partition(" | ")
+            t = head.split(" ", 7)
+            if t[0] != "P" or len(t) < 8:
+                viol.append(("packer emitted an unreadable pack (%s)" % name, "packauto", l, part[:300])); continue
+            blobs = parse_blobs(t[7])
+            summary[name].append("%d blobs, %s bytes, %s" % (len(blobs), t[5], ff))
+            if len(blobs) >= 2: nontriv.add("ex " + l)
+            if len(blobs) > mc:
+                viol.append(("a pack holds more than MAX_COUNT blobs (%s)" % name, "packauto", l, "%d blobs" % len(blobs)))
+            bad = [f for f in ff.split() if not f.endswith("=same")]
+            if bad:
+                viol.append(("PackHeader::from_file does not return the index entry of a pack the packer just wrote (%s: %d blobs, header %s bytes): %s"
+                             % (name, len(blobs), t[4], " ".join(b_[:60] for b_ in bad)), "packauto", l, "pack of %d blobs, file %s bytes: %s" % (len(blobs), t[5], " ".join(b_[:200] for b_ in bad))))
+            if int(t[4]) != (0 if t[2] in ("-", "fail") else len(t[2]) // 2) + 32 or int(t[3]) != int(t[4]) or t[2] == "fail":
+                viol.append(("encrypted header length / length field wrong (%s)" % name, "packauto", l, head[:200]))
+            dl.append(describes_line(int(t[5]), blobs)); di.append((name, l))
+    d = run_lines(model, dl, "describes", tag="ex") if dl else []
+    for (name, l), v in zip(di, d):
+        if v.strip() != "1": viol.append(("packer emitted a pack whose index entry does not describe the file (%s)" % name, "packauto", l, name))
+    if samples is not None and len(samples) < 8 and cases:
+        samples.append({"mode": "packauto", "case": cases[2][1] if len(cases) > 2 else cases[0][1], "impl": (a[2] if len(a) > 2 else a[0])[:600]})
+    return {"evaluations": len(lines) + len(dl), "extreme_cases": summary,
+            "extremes_rule": "packs closed by the blob-count limit (MAX_COUNT one-/two-byte blobs, 41- and 37-byte header entries), by the size limit, a single huge blob, an empty flush, only duplicates, zero-length blobs: real BasicPacker with its own should_save, every pack re-read by the real PackHeader::from_file (hints none/exact/0/max), all compared with the extracted packer_run_auto + from_file. The age limit (5 minutes) is not reachable in a check run and stays an oracle of the model."}
 
 
 def run_repack(ctx, impl, model, bump, viol, mism, nontriv, samples):
